@@ -47,7 +47,7 @@ func replay(raw json.RawMessage) (string, bool) {
 		if len(targets) == 0 || !direct.OK {
 			return strings.Join(append(lines, "fault case without compilable reference targets"), "\n"), false
 		}
-		v, fired, built := judgeFault(ctx, w, c.Files, sel, *c.Fault, targets, direct, counters{})
+		v, fired, built := judgeFault(ctx, w, c.Files, sel, *c.Fault, targets, direct, nil)
 		lines = append(lines, fmt.Sprintf("api with read fault %s: image built=%v fault hit=%v", *c.Fault, built, fired))
 		if v != nil {
 			lines = append(lines, "VIOLATED "+v.sig+": "+v.what)
